@@ -418,6 +418,7 @@ def build():
     C.helpers["limit_delay_untouched"] = untouched("enable_limit_reached")
     C.helpers["limit_delay_pending"] = pending("enable_limit_reached")
     C.helpers["timed_disable_pending"] = pending("timed_disable")
+    C.helpers["postponed_enable_pending"] = pending("postponed_enable")
 
     def trace_has(name):
         def h(I):
@@ -433,6 +434,11 @@ def build():
                 common.emit(I, nm, via="contract")
         return f
 
+    def emit_maybe_enable(I, env, res):
+        """callers only learn: the hardware has been enabled, or the enable is postponed"""
+        if I.ctx.fork(2) == 0:
+            common.emit(I, "hw.enable", via="contract")
+
     C.fn("Driver._enable_now", params=dict(pulse_ms=Int, pulse_power=Num, hold_power=Num), emits=emits("hw.enable"),
          requires=["self.hw_driver is not None"] + VERIFIED_PULSE + [
              ("hold_power verified", "0 < hold_power <= %s" % lh)],
@@ -440,7 +446,9 @@ def build():
                   ("max_hold_duration => switch-off scheduled",
                    "implies(self.config['max_hold_duration'], limit_delay_pending())"),
                   ("a switch-off that is already scheduled is not pushed back by enabling again",
-                   "implies(old(limit_delay_pending()), limit_delay_untouched())")],
+                   "implies(old(limit_delay_pending()), limit_delay_untouched())"),
+                  ("a postponed enable is neither added nor removed here",
+                   "postponed_enable_pending() == old(postponed_enable_pending())")],
          modifies=["self.delay.pending"], raises={})
 
     C.fn("Driver._enable_limit_reached", requires=["self.hw_driver is not None"], emits=emits("hw.disable"),
@@ -448,7 +456,10 @@ def build():
 
     C.fn("Driver.disable", requires=["self.hw_driver is not None"], emits=emits("hw.disable"),
          ensures=[("hardware disabled", "issued_hw_disable()"),
-                  ("limit timer removed", "not limit_delay_pending()")],
+                  ("limit timer removed", "not limit_delay_pending()"),
+                  ("DS2: an enable that the PSU postponed does not outlive the disable (it would switch the coil on "
+                   "with nobody left to switch it off: an enable-coil ejector disables after its eject time)",
+                   "not postponed_enable_pending()")],
          modifies=["self.delay.pending"], raises={})
 
     C.fn("Driver.event_disable", requires=["self.hw_driver is not None"], modifies=["self.delay.pending"],
@@ -456,7 +467,11 @@ def build():
 
     C.fn("Driver.enable", params=dict(pulse_ms=ANYNUM, pulse_power=ANYNUM, hold_power=ANYNUM, max_wait_ms=Opt(Num)),
          requires=["self.platform is not None"],
-         modifies=["self.delay.pending"], raises=LIMERR)
+         ensures=[("EN3: the coil is switched on now or the enable is postponed under its own name (so that a disable "
+                   "can cancel it) - never both, never neither",
+                   "(issued_hw_enable() or postponed_enable_pending()) and "
+                   "(not issued_hw_enable() or not postponed_enable_pending() or old(postponed_enable_pending()))")],
+         emits=emit_maybe_enable, modifies=["self.delay.pending"], raises=LIMERR)
     C.fn("Driver.event_enable", params=dict(pulse_ms=ANYNUM, pulse_power=ANYNUM, hold_power=ANYNUM),
          requires=["self.platform is not None"],
          modifies=["self.delay.pending"], raises=LIMERR)
@@ -478,6 +493,9 @@ def build():
                    "pulse_ms > self.platform.features['max_pulse'])")],
          modifies=["self.delay.pending"], raises=LIMERR)
 
+    C.finite_checks.append(common.native_demo_check(
+        "c08_postponed_enable_after_disable.py",
+        "an enable that the PSU postponed does not switch the coil on after the driver has been disabled"))
     C.finite_checks.append(common.native_demo_check(
         "c08_pulse_0_holds_coil.py", "pulse(0) sends no enable / hold command to the platform"))
 
